@@ -482,3 +482,6 @@ func (wb *WriteBack) ReadOnly(fn *ssa.Function) bool {
 	}
 	return walk(fn)
 }
+
+// Saves reports whether fn persists its i-th argument on every success path.
+func (wb *WriteBack) Saves(fn *ssa.Function, i int) bool { return wb.savers[fn][i] }
